@@ -73,7 +73,20 @@ func wOpsString(ops []wOp) string {
 
 // runWriterHistory executes ops against a real bufiox writer and checks everything against
 // the region model. Returns the non-triviality flag.
-func runWriterHistory(cs *drv.Case, ops []wOp, o writerOpts) bool {
+func runWriterHistory(cs *drv.Case, ops []wOp, o writerOpts) (nontrivial bool) {
+	returned, pnc := cs.C.Bounded(historyBound, "writer history", func() {
+		nontrivial = runWriterHistoryInner(cs, ops, o)
+	})
+	if pnc != nil {
+		panic(pnc)
+	}
+	if !returned {
+		cs.Fail("operation-never-returned", M{"writer": "history"}, M{"ops": fmt.Sprint(ops), "message": fmt.Sprintf("a writer operation of this history had not returned after %v", historyBound)})
+	}
+	return nontrivial
+}
+
+func runWriterHistoryInner(cs *drv.Case, ops []wOp, o writerOpts) bool {
 	var w bufiox.Writer
 	sinkErr := doubles.SinkErrors[o.failErr%len(doubles.SinkErrors)]
 	sink := &doubles.Sink{FailAt: o.failAt, Err: sinkErr, FailMode: o.failMode}
